@@ -1243,6 +1243,10 @@ func propC19(r *Run) {
 		gts.Joined{gts.Range(1, 3), gts.Range(0, 1)}, gts.Joined{gts.Range(0, 1), gts.Range(2, 3)},
 		gts.Ordered{gts.Point(2), gts.Point(1)}, gts.Joined{gts.Complemented{Location: gts.Range(2, 3)}, gts.Between(1)},
 		gts.Complemented{Location: gts.Joined{gts.Range(2, 4), gts.Range(1, 3)}},
+		// a complement(join(…)) / complement(order(…)) MEMBER inside a list: Join does not flatten it and the
+		// parser builds it (seeded W39-2: a LocationLess that flattened its operands once never opened it)
+		gts.Joined{gts.Complemented{Location: gts.Joined{gts.Range(0, 1), gts.Range(2, 3)}}, gts.Range(4, 6)},
+		gts.Ordered{gts.Range(3, 4), gts.Complemented{Location: gts.Ordered{gts.Point(0), gts.Point(2)}}},
 	}
 	for _, a := range ordSet {
 		for _, b := range ordSet {
